@@ -353,6 +353,14 @@ Section Filters.
   Definition vec_update (wp wv : T) (sts : list (kstate Ops)) (pts : list (vec Ops)) : list (kstate Ops) :=
     map (fun sp => g_update Ops (point_filter wp wv) (fst sp) (snd sp)) (combine sts pts).
 
+  (* distance: state.iter().zip(points.iter()).map(|(s, p)| self.f.distance(s, p)) ; lengths asserted equal.
+     EVERY point uses the Cholesky factor of ITS OWN projected covariance. *)
+  Definition vec_distance (sqrtT : T -> T) (wp wv : T) (sts : list (kstate Ops)) (pts : list (vec Ops)) : list T :=
+    map (fun sp => g_distance Ops (point_filter wp wv) sqrtT (fst sp) (snd sp)) (combine sts pts).
+  (* the same in the sqrt-free form (diagonal innovation covariance) *)
+  Definition vec_distance_diag (wp wv : T) (sts : list (kstate Ops)) (pts : list (vec Ops)) : list T :=
+    map (fun sp => g_distance_diag Ops (point_filter wp wv) (fst sp) (snd sp)) (combine sts pts).
+
   Inductive vop := VPredict | VUpdate (pts : list (vec Ops)).
 
   Definition vec_step (wp wv : T) (sts : list (kstate Ops)) (op : vop) : list (kstate Ops) :=
@@ -392,6 +400,9 @@ Section Filters.
 
   Definition box_calculate_cost := cost_with_gate (chi2 4).     (* CHI2INV95[4] *)
   Definition point_calculate_cost := cost_with_gate (chi2 1).   (* CHI2INV95[1] *)
+  (* Vec2DKalmanFilter::calculate_cost: distances.iter().map(|d| Point2DKalmanFilter::calculate_cost(d, inverted)) *)
+  Definition vec_calculate_cost (distances : list T) (inverted : bool) : list T :=
+    map (fun d => point_calculate_cost d inverted) distances.
 
 End Filters.
 
